@@ -6,6 +6,7 @@ import HcipyVerif.Model.Interp
 
 ```
 lin-sep new|old ext|fill <sep> <vals> <pts>     sep = [x-axis];[y-axis];…  pts = [x,y];[x,y];…
+sample-affine <sep> <c0> <c>                    the samples of c0+Σc·x on the grid, hcipy order (`sampleAffine`, the specification side of the affine theorems)
 near-sep new|old <sep> <vals> <pts>             -> ok [v,nan,…]   (nan = fill value / outside)
 lin-tri <[ax,ay,bx,by,cx,cy]> <[va,vb,vc]> <[px,py]>   -> ok v | ok nan (degenerate simplex)
 lin-simplex <verts> <vals> <p>                  d-simplex (d+1 vertices [..];[..];…), exact barycentric interpolant -> ok v | ok nan (degenerate)
@@ -19,6 +20,7 @@ binw <s> <dims> <vals> <weights>                weighted mean (non-regular grids
 binws <ss> <dims> <vals> <weights>              weighted mean, per-axis factors (`binWMeans`)
 bint <s> <dims> <ncomp> <vals>                  tensor field, statistic sum (component-wise `binTensor`)
 bintl sum|mean <ss> <dims> <tshape> <vals>      tensor field as the code reshapes it (`binTensorL`: tensor axes in front, unbinned)
+supergrid <zero> <delta> <dims> <ns>             make_supersampled_grid of a regular grid: the per-axis coordinates (`superAxis`)
 ss mean|sum <c0> <c> <q> <sep> <ns>             evaluate_supersampled of c0+Σc·x+Σq·x²
 ```
 -/
@@ -55,6 +57,12 @@ def step (st : St) : List String → St × String
         if !shapeOk sep vals || !sameLengths sep then (st, "err value") else
         (st, "ok " ++ showOpts (pts.map (linearSeparatedOld ext sep vals)))
       | _, _ => (st, "bad-op")
+    | _, _, _ => (st, "bad-op")
+  | ["sample-affine", sep, c0, c] =>
+    match parseRatLists? sep, parseRat? c0, parseRatList? c with
+    | some sep, some c0, some c =>
+      if c.length ≠ sep.length then (st, "bad-op") else
+      (st, "ok " ++ showRatList (sampleAffine sep.reverse c0 c.reverse))
     | _, _, _ => (st, "bad-op")
   | ["near-sep", which, sep, vals, pts] =>
     match parseRatLists? sep, parseRatList? vals, parseRatLists? pts with
@@ -122,7 +130,8 @@ def step (st : St) : List String → St × String
     | some ss, some dims, some vals =>
       if ss.any (· = 0) || ss.length ≠ dims.length then (st, "bad-op") else
       if vals.length ≠ fineSizes ss dims then (st, "err value") else
-      (st, "ok " ++ showRatList ((tensorPts (dims.map List.range)).map fun c =>
+      -- every multi-index of the coarse array, checked against the hypothesis `InBounds` of `bins_pixel`
+      (st, "ok " ++ showRatList (((tensorPts (dims.map List.range)).filter fun c => decide (InBounds dims c)).map fun c =>
         boxSums dims ss c (fun f => vals.getD f 0)))
     | _, _, _ => (st, "bad-op")
   | ["binw", s, dims, vals, w] =>
@@ -157,6 +166,13 @@ def step (st : St) : List String → St × String
       | "sum" => (st, "ok " ++ showRatList r)
       | "mean" => (st, "ok " ++ showRatList (r.map (· / ((ss.foldr (· * ·) 1 : Nat) : Rat))))
       | _ => (st, "bad-op")
+    | _, _, _, _ => (st, "bad-op")
+  | ["supergrid", zero, delta, dims, ns] =>
+    match parseRatList? zero, parseRatList? delta, parseNatList? dims, parseNatList? ns with
+    | some zero, some delta, some dims, some ns =>
+      if ns.any (· = 0) || ns.length ≠ dims.length || zero.length ≠ dims.length || delta.length ≠ dims.length then (st, "bad-op") else
+      (st, "ok " ++ showRatLists ((List.zip (List.zip zero delta) (List.zip dims ns)).map fun zd =>
+        superAxis zd.1.1 zd.1.2 zd.2.1 zd.2.2))
     | _, _, _, _ => (st, "bad-op")
   | ["ss", stat, c0, c, q, sep, ns] =>
     match parseRat? c0, parseRatList? c, parseRatList? q, parseRatLists? sep, parseNatList? ns with
